@@ -307,6 +307,55 @@ def _sig_edge_cases(tier):
                 yield {'signer': sp, 'kind': kind, 'start': start}
 
 
+# ---- a second ParametersSha256DigestComponent slipped into the name of a signed Interest -------------------------------------
+def run_extra_digest(case):
+    """The name of a signed Interest gets an ADDITIONAL component of the ParametersSha256Digest type (an Interest has at most one):
+    the name - which the signature protects - is not the signed one any more, so the packet is refused by the decoder or by the
+    matching verifier."""
+    r = Result()
+    pc = [p for p in _small_packets() if p['kind'] == 'interest' and p['signer']['kind'] == case['signer']][0]
+    if case.get('digest_pos') is not None:
+        pc = dict(pc, digest_pos=case['digest_pos'])
+    exp, wire, payload, signer, _fn = build(pc)
+    s0 = _strict('interest', wire)
+    el = T.single(wire)
+    kids = T.walk(wire, el[2], el[3])
+    nm = kids[0]
+    comps = [wire[c[1]:c[3]] for c in T.walk(wire, nm[2], nm[3])]
+    real = [c for c in comps if c[0] == 2][0]
+    extra = {'empty': T.enc_tlv(2, b''), 'short': T.enc_tlv(2, b'abc'), 'zeros': T.enc_tlv(2, b'\x00' * 32), 'copy': real}[case['extra']]
+    pos = case['pos'] % (len(comps) + 1)
+    comps2 = comps[:pos] + [extra] + comps[pos:]
+    mw = T.enc_tlv(5, T.enc_tlv(7, b''.join(comps2)) + wire[nm[3]:el[3]])
+    spec = pc['signer']
+    kl = S.name_comps(spec['kl']) if spec.get('kl') is not None else []
+    try:
+        mname, _mp, _mc, msig = parse_interest(mw)
+    except Exception:
+        r.key = ('rejected-by-decoder', case['signer'])
+        r.classes = ('extra-digest-component', 'rejected-by-decoder')
+        return r
+    if [bytes(c) for c in mname] == [bytes(c) for c in parse_interest(wire)[0]]:
+        return r.bad('C02/harness/extra-digest-name-unchanged', '')
+    for label, v in lib_verdicts(spec, mname, msig, kl[:1]).items():
+        if label == 'sha256_digest_checker' and False:
+            continue
+        if v is True:
+            r.bad(f'C02/tamper-accepted/interest/{label}/extra-digest-component',
+                  f'component {extra.hex()[:20]} inserted at position {pos} of the name: the name is no longer the signed one, yet it verifies')
+    r.key = ('accepted-by-decoder', case['signer'], case['extra'])
+    r.classes = ('extra-digest-component', 'decoded')
+    return r
+
+
+def _extra_digest_cases(tier):
+    for signer in ('digest', 'hmac', 'ed25519', 'ecdsa', 'rsa'):
+        for extra in ('empty', 'short', 'zeros', 'copy'):
+            for pos in range(4):
+                for dp in (None, 1):
+                    yield {'signer': signer, 'extra': extra, 'pos': pos, 'digest_pos': dp}
+
+
 # ---- genuine ECDSA signatures of unusual length ---------------------------------------------------------------------------------
 _P256_N = 0xFFFFFFFF00000000FFFFFFFFFFFFFFFFBCE6FAADA7179E84F3B9CAC2FC632551
 
@@ -403,6 +452,8 @@ def _ecdsa_short_cases(tier):
 
 
 SUBCHECKS = {
+    'extra-digest': SubCheck(run_extra_digest, enumerate=_extra_digest_cases, exhaustive={'quick': True, 'thorough': True},
+                             note='a second ParametersSha256DigestComponent inserted at every position of a signed Interest name'),
     'ecdsa-short': SubCheck(run_ecdsa_short, enumerate=_ecdsa_short_cases, exhaustive={'quick': False, 'thorough': False},
                             note='genuine ECDSA signatures whose s has 1..255 bits (DER length 37..72): the matching verifier accepts'),
     'sig-edge': SubCheck(run_sig_edge, enumerate=_sig_edge_cases, exhaustive={'quick': False, 'thorough': False},
